@@ -26,7 +26,7 @@ pub static PROP: Prop = Prop {
         "kiss answers are checked for mode, version, origin echo, stratum 0 and zero receive/transmit timestamps; poll of kiss answers is not judged",
     ],
     profiles: Profiles::Ship,
-    cases: |t| t.pick(25_000, 700_000),
+    cases: |t| t.pick(25_000, 500_000),
     budget_s: |t| t.pick(45, 400),
     run,
     min_nontrivial: 500,
